@@ -132,6 +132,8 @@ class PairTabulationFactory(object):
 
     # Get pair potentials
     potential_form_registry = Potential_Form_Registry(cp, register_standard = True, register_pymath_functions = True)
+    # a formula that does not parse is an error of the file whether or not the tabulation evaluates it
+    potential_form_registry.check_formulas()
     modifier_registry = Modifier_Registry()
     
     potobjs = self.extract_potential_objects(cp, potential_form_registry, modifier_registry)
